@@ -60,3 +60,59 @@ func HSkipBeforeProtected() {
 	}
 	vr.Assert("c13.sk.skip.equal", message.VEqPayloads(orig, r.Payloads))
 }
+
+// HSkipInsideProtected (C13 through DecodeDecrypt): unsupported payloads with a clear critical flag
+// inside the encrypted chain of a peer's message - in front, in the middle, at the end, or alone - are
+// skipped: the message unprotects to exactly the payloads of the message without them; with the
+// critical flag set (Param(3) = 1) it is refused.
+// Params: suite, sender role, hdrMode, critical (0/1), payload kinds..., 0.
+func HSkipInsideProtected() {
+	suite, role, hdrMode, crit := vr.Param(0), vr.Param(1), vr.Param(2), vr.Param(3)
+	km := VGenKeyMaterial(suite)
+	receiver := VNewKey(km)
+	m := message.VGenMessage(4, -1)
+	var items []message.VItem
+	for _, p := range m.Payloads {
+		body, err := message.VBodyOf(p)
+		vr.Assert("c13.inner.base.marshal", err == nil)
+		if err != nil {
+			return
+		}
+		items = append(items, message.VItem{Type: message.VRefType(p), Flags: 0, Body: body})
+	}
+	pos := vr.IntIn(0, len(items))
+	t := vr.U8()
+	vr.Assume(t >= 1 && (t <= 32 || t >= 49))
+	fl := vr.U8() & 0x7f
+	if crit == 1 {
+		fl |= 0x80
+	}
+	ins := message.VItem{Type: t, Flags: fl, Body: vr.Bytes(vr.IntOf(0, 3))}
+	var all []message.VItem
+	all = append(all, items[:pos]...)
+	all = append(all, ins)
+	all = append(all, items[pos:]...)
+	whole := message.VAssemble(m.IKEHeader, all)
+	first, chain := whole[16], whole[28:]
+	p0 := (16 - (len(chain)+1)%16) % 16
+	b := VRefProtectChain(m.IKEHeader, first, chain, km, role, p0)
+	var h *message.IKEHeader
+	if hdrMode == 1 {
+		var err error
+		h, err = message.ParseHeader(b)
+		vr.Assert("c13.inner.header.noerr", err == nil)
+		if err != nil {
+			return
+		}
+	}
+	r, err := DecodeDecrypt(b, h, receiver, vRole(1-role))
+	if crit == 1 {
+		vr.Assert("c13.inner.reject", err != nil)
+		return
+	}
+	vr.Assert("c13.inner.skip.accepted", err == nil)
+	if err != nil {
+		return
+	}
+	vr.Assert("c13.inner.skip.equal", message.VEqPayloads(m.Payloads, r.Payloads))
+}
